@@ -58,6 +58,7 @@ var shared = map[string][]sharedRule{
 		{[]func(*core.Ctx){C02}, []string{"C02.R3"}, "C12.R15", 9, "a too-large error raised while a field is written reaches the client/processor as the transport exception it is (decided by C02.R3): every runtime field writer hands the protocol's error on through thrift.PrependError, which keeps its type"},
 	},
 	"C18": {
+		{[]func(*core.Ctx){C02}, []string{"C02.R20"}, "C18.R11", 1, "both sides of a type comparison are fully resolved names (decided by C02.R20): a container typedef of an include resolves to element types named relative to the audited file, whatever their kind"},
 		{[]func(*core.Ctx){C11}, []string{"C11.R20"}, "C18.R10", 1, "a breaking change in any audited file fails the run (decided by C11.R20): inside the loop over the command-line files the error of each Audit ends the process non-zero before the next file overwrites it"},
 	},
 	"C20": {
